@@ -413,6 +413,23 @@ case("TryUnwrap_generic", ["TryUnwrap"], D("TryUnwrap") + " #[try_unwrap(ref)] p
 case("TryUnwrap_single", ["TryUnwrap"], D("TryUnwrap") + " pub enum M { A(i32) }", "M::A(3).try_unwrap_a().ok()")
 
 
+# ------------------------------------------------------------------ user generic parameters named like the macro's own (without `__`)
+case("Sum_param_I", ["Sum", "Add"], D("Add", "Sum") + " pub struct S<I>(pub I);",
+     "<S<i32> as ::core::iter::Sum>::sum(::core::iter::IntoIterator::into_iter([S(1), S(2)])).0")
+case("Product_param_I", ["Product", "Mul"], D("Mul", "Product") + " #[mul(forward)] pub struct P<I>(pub I);",
+     "<P<i32> as ::core::iter::Product>::product(::core::iter::IntoIterator::into_iter([P(2), P(3)])).0")
+case("Mul_param_RhsT", ["Mul"], D("Mul") + " pub struct M<RhsT>(pub RhsT);", "(M(12i32) * 2).0")
+case("MulAssign_param_RhsT", ["MulAssign"], D("MulAssign") + " pub struct M<RhsT>(pub RhsT);", "{ let mut r = M(12i32); r *= 2; r.0 }")
+case("AsRef_param_AsT", ["AsRef"], D("AsRef") + " #[as_ref(forward)] pub struct A<AsT>(pub AsT);",
+     "{ let a = A([1u8, 2]); <A<[u8; 2]> as ::core::convert::AsRef<[u8]>>::as_ref(&a).len() }")
+case("Index_param_IdxT", ["Index"], D("Index") + " pub struct I<IdxT>(pub IdxT);", "I([1u8, 2, 3])[1usize]")
+case("From_param_FromT0", ["From"], D("From") + " #[from(forward)] pub struct F<FromT0>(pub i64, pub ::core::marker::PhantomData<FromT0>);",
+     "{ let f: F<u8> = ::core::convert::From::from((5i32, ::core::marker::PhantomData::<u8>)); f.0 }")
+case("Into_lifetime_named", ["Into"], D("Into") + " #[into(ref)] pub struct W<'derive_more_into>(pub &'derive_more_into i16);",
+     "{ let x = 3i16; let w = W(&x); let v: &&i16 = ::core::convert::Into::into(&w); **v }")
+case("TryInto_lifetime_named", ["TryInto"], D("TryInto") + " #[try_into(ref)] pub enum V<'deriveMoreLifetime> { A(&'deriveMoreLifetime i32), B(u8) }",
+     "<&u8 as ::core::convert::TryFrom<&V>>::try_from(&V::B(4)).ok().map(|x| *x)")
+
 # ------------------------------------------------------------------ Error::provide (nightly: error_generic_member_access)
 NIGHTLY_CASES = []
 
@@ -440,6 +457,10 @@ ncase("Error_bt_enum", ERRD + " #[display(\"i\")] pub struct I { pub backtrace: 
       "(%s(&E::A { backtrace: %s::force_capture() }).is_some(), %s(&E::B { source: E1, backtrace: %s::force_capture() }).is_some(), "
       "%s(&E::C { source: I { backtrace: %s::force_capture() } }).is_some(), %s(&E::D(E1, %s::force_capture())).is_some(), %s(&E::F).is_some())"
       % (REQ, BT, REQ, BT, REQ, BT, REQ, BT, REQ))
+
+NIGHTLY_INFO_CASES = [{"id": "Error_bt_user_request_lifetime", "derives": ["Error"], "tier": "thorough",
+                       "src": ERRD + " #[display(\"e\")] pub struct E<'_request> { pub backtrace: %s, pub r: &'_request i32 }" % BT,
+                       "obs": "0"}]
 
 # ------------------------------------------------------------------ scopes
 
@@ -491,6 +512,11 @@ pub mod h {
     pub fn dbg<T: ::core::fmt::Debug + ?Sized>(t: &T) -> Str { format!("{:?}", t) }
     pub fn dbgp<T: ::core::fmt::Debug + ?Sized>(t: &T) -> Str { format!("{:#?}", t) }
     pub fn disp<T: ::core::fmt::Display + ?Sized>(t: &T) -> Str { format!("{}", t) }
+    #[derive(Debug)]
+    pub struct Other;
+    impl ::core::fmt::Display for Other { fn fmt(&self, f: &mut ::core::fmt::Formatter<'_>) -> ::core::fmt::Result { f.write_str("OTHER") } }
+    impl ::std::error::Error for Other {}
+    pub static OTHER: Other = Other;
 }
 """
 
